@@ -143,6 +143,31 @@ class Inventory(asset.Inventory):
         raise NotImplementedError()
 
 
+class RacingInventory(Inventory):
+    """Inventory that steers two concurrent first lookups into the interleaving TLC found in DescriptorCache.tla: the first
+    caller of list() is parked inside the call until another lookup has fetched its descriptor."""
+
+    def __init__(self, descriptors):
+        import threading
+        super().__init__(descriptors)
+        self._lock = threading.Lock()
+        self._calls = 0
+        self._fetched = threading.Event()
+
+    def list(self):
+        with self._lock:
+            first = self._calls == 0
+            self._calls += 1
+        names = list(self._content.keys())
+        if first:
+            self._fetched.wait(timeout=10)
+        return names
+
+    def get(self, application):
+        self._fetched.set()
+        return self._content[application]
+
+
 MANIFEST = f"NAME = '{PROJECT}'\nVERSION = '{RELEASE}'\nPACKAGE = 'servpkg'\nMODULES = {{}}\n"
 SOURCE_PY = '''from forml import project
 from harness import serving
